@@ -9,7 +9,7 @@ import IronCalc.User.WF
   Command tokens: `U` `R` `F` `name:<hex>` `tz:<hex>` `loc:<hex>` `fr:<s>:<n>` `fc:<s>:<n>`
   `grid:<s>:<0|1>` `color:<s>:<hex>` `hide:<s>` `unhide:<s>` `rename:<s>:<hex>` `newsheet`
   `delsheet:<s>` `cw:<s>:<c1>:<c2>:<w>` `rh:<s>:<r1>:<r2>:<h>` `ch:<s>:<c1>:<c2>:<0|1>`
-  `rhid:<s>:<r1>:<r2>:<0|1>` `mr:<s>:<row>:<count>:<delta>`.
+  `rhid:<s>:<r1>:<r2>:<0|1>` `mr:<s>:<row>:<count>:<delta>` `mc:<s>:<column>:<count>:<delta>`.
 -/
 open IronCalc.User
 namespace Driver
@@ -50,6 +50,8 @@ def parseCmd (tok : String) : Option (Cmd Op) :=
     do some (.op (.setRowsHidden (← s.toNat?) (← a.toInt?) (← b.toInt?) (← parseBool v)))
   | ["mr", s, r, n, d] =>
     do some (.op (.moveRows (← s.toNat?) (← r.toInt?) (← n.toInt?) (← d.toInt?)))
+  | ["mc", s, r, n, d] =>
+    do some (.op (.moveColumns (← s.toNat?) (← r.toInt?) (← n.toInt?) (← d.toInt?)))
   | _ => none
 
 /-- the integers of `a..=b` that lie in `1..=hi`, at most 64 of them -/
@@ -66,6 +68,8 @@ def touched (cs : List (Cmd Op)) : List Int × List Int :=
     | .op (.setColumnsHidden _ a b _) => (acc.1 ++ rangeIn a b LAST_COLUMN, acc.2)
     | .op (.setRowsHeight _ a b _) => (acc.1, acc.2 ++ rangeIn a b LAST_ROW)
     | .op (.setRowsHidden _ a b _) => (acc.1, acc.2 ++ rangeIn a b LAST_ROW)
+    | .op (.moveColumns _ r n d) =>
+      (acc.1 ++ rangeIn (r + min d 0 - 12) (r + max n 0 + max d 0 + 12) LAST_COLUMN, acc.2)
     | .op (.moveRows _ r n d) =>
       -- everything a move can touch: the block, the landing zone and a margin for skipped hidden rows
       (acc.1, acc.2 ++ rangeIn (r + min d 0 - 12) (r + max n 0 + max d 0 + 12) LAST_ROW)
